@@ -263,7 +263,15 @@ def call_builtin(ex, name, args, kw, st, where, env):
     if name == "sorted":
         yield from sorted_(ex, args, kw, st, where)
         return
-    if name in ("map", "filter", "zip"):
+    if name in ("itertools.tee", "it.tee"):
+        yield (args[0], args[0]), st
+        return
+    if name in ("filter", "itertools.filterfalse", "it.filterfalse") and ex.iter_items(args[1], st) is None:
+        yield from symbolic_filter(ex, args[0], args[1], name.endswith("filterfalse"), st, where)
+        return
+    if name in ("itertools.filterfalse", "it.filterfalse"):
+        name = "filterfalse"
+    if name in ("map", "filter", "zip", "filterfalse"):
         yield from mapfilterzip(ex, name, args, st, where)
         return
     if name.endswith("utcfromtimestamp"):
@@ -497,8 +505,48 @@ def mapfilterzip(ex, name, args, st, where):
                 yield from go(i + 1, acc + [v], st2)
             else:
                 for b, st3 in ex.fork_truth(st2, v):
-                    yield from go(i + 1, acc + [items[i]] if b else acc, st3)
+                    keep = b if name == "filter" else not b
+                    yield from go(i + 1, acc + [items[i]] if keep else acc, st3)
     yield from go(0, [], st)
+
+
+def symbolic_filter(ex, pred, xs, negate, st, where):
+    """filter(pred, xs) over a symbolic sequence: an order-preserving subsequence holding exactly the elements
+    that satisfy pred (index maps g: result->source strictly increasing, h: source->result)"""
+    if pred is None or not (isinstance(xs, Sym) and isinstance(xs.ty, SeqTy)):
+        raise PyvcUnsupported("filter over a non-sequence / without predicate")
+    et = xs.ty.elem
+    n = z3.Length(xs.e)
+    r = z3.Const(fresh_name("filtered"), xs.ty.sort)
+    m = z3.Length(r)
+    i, j = z3.Int(fresh_name("fi")), z3.Int(fresh_name("fj"))
+    g = z3.Function(fresh_name("src"), z3.IntSort(), z3.IntSort())
+    h = z3.Function(fresh_name("dst"), z3.IntSort(), z3.IntSort())
+
+    def pred_at(elem, st_k):
+        outs = list(ex.call_value(pred, [elem], {}, st_k, where))
+        if len(outs) != 1 or isinstance(outs[0][0], Raised):
+            raise PyvcUnsupported("filter predicate that forks or raises")
+        t = z3_truth(outs[0][0])
+        return z3.Not(t) if negate else t
+    st_i = st.assume(i >= 0, i < m)
+    st_j = st.assume(j >= 0, j < n)
+    p_r = pred_at(Sym(et, r[i]), st_i)
+    p_x = pred_at(Sym(et, xs.e[j]), st_j)
+    facts = [m >= 0, m <= n,
+             z3.ForAll([i], z3.Implies(z3.And(i >= 0, i < m), z3.And(g(i) >= 0, g(i) < n, r[i] == xs.e[g(i)], p_r, h(g(i)) == i))),
+             z3.ForAll([i, j], z3.Implies(z3.And(i >= 0, i < j, j < m), g(i) < g(j))),
+             z3.ForAll([j], z3.Implies(z3.And(j >= 0, j < n, p_x), z3.And(h(j) >= 0, h(j) < m, g(h(j)) == j)))]
+    # counting lemma L6 (partition): |filter p xs| + |filter (not p) xs| = |xs|, added when the same predicate
+    # object is used both ways on the same sequence (TupleOps.partition)
+    reg = ex.__dict__.setdefault("_filter_reg", {})
+    k_ = (xs.e.get_id(), id(pred))
+    other = reg.get((k_, not negate))
+    reg[(k_, negate)] = (xs.e, m)
+    if other is not None:
+        facts.append(m + other[1] == n)
+        ex.iface_used.add("lemma L6: |filter p xs| + |filterfalse p xs| = |xs|")
+    yield Sym(xs.ty, r), st.assume(*facts)
 
 
 def minmax(ex, name, args, kw, st, where):
